@@ -153,6 +153,37 @@ def run(chk):
                            "writer_flags": flags, "sizes": [len(d) for d in datas]}, signature="memio")
     chk.count("memory-vs-file", len(mem_lines), set((m[0], m[1]) for m in mem_meta), samples=[{"case": mem_lines[0]}] if mem_lines else [])
 
+    # ---- host locale: the same job in-process under the classic global C++ locale and under one with a decimal comma and
+    # digit grouping (std::locale::global of a host application); jobs that make qpdf print real numbers it computed
+    ldoc = pdfgen.page_doc(3, marker="L", rotate={1: 90, 2: 270, 3: 180}, mediabox={1: [0, 0, pdfgen.Real("1200.5"), pdfgen.Real("2300.25")], 2: [10, 20, 3000, 4000]})
+    lp = os.path.join(wd, "locale-in.pdf")
+    open(lp, "wb").write(pdfgen.write_classic(ldoc)[0])
+    ljobs = [["--static-id", "--flatten-rotation"], ["--static-id", "--overlay", lp, "--to=1-z", "--"],
+             ["--static-id", "--flatten-rotation", "--object-streams=generate"], ["--static-id", "--qdf", "--flatten-rotation"]]
+    llines, lmeta = [], []
+    for ji, job in enumerate(ljobs):
+        outs = []
+        for mode in ("classic", "comma"):
+            o = os.path.join(wd, "loc%d-%s.pdf" % (ji, mode))
+            llines.append("job_locale %s %s %s %s" % (mode, " ".join(job), lp, o))
+            outs.append(o)
+        lmeta.append((job, outs))
+    lres = common.run_lines(drv, llines)
+    lit = iter(lres)
+    for job, outs in lmeta:
+        r1, r2 = next(lit), next(lit)
+        if not (r1.startswith("ok") and r2.startswith("ok")):
+            tie.append({"input": lp, "opts": job, "difference": "in-process job did not run: %s / %s" % (r1[:80], r2[:80])})
+            continue
+        d1, d2 = open(outs[0], "rb").read(), open(outs[1], "rb").read()
+        if d1 != d2:
+            first = next((i for i, (x, y) in enumerate(zip(d1, d2)) if x != y), min(len(d1), len(d2)))
+            chk.violation({"kind": "property-fails-on-implementation", "why": "output bytes depend on the global C++ locale of the host process",
+                           "input": lp, "argv": ["qpdf"] + job + ["locale-in.pdf", "out.pdf"], "first_difference_at": first,
+                           "classic": d1[max(0, first - 30):first + 30].decode("latin-1"), "comma_locale": d2[max(0, first - 30):first + 30].decode("latin-1")},
+                          signature="env:host-locale")
+    chk.count("host-locale", len(llines), set(" ".join(j) for j, _ in lmeta), samples=[{"case": llines[0]}])
+
     # ---- fixpoint: generation 2 == generation 3
     fp_jobs = []
     for ip, inp in enumerate(inputs):
